@@ -70,6 +70,15 @@ func (f *Defun) Call(s *slip.Scope, args slip.List, depth int) (result slip.Obje
 		pkg = slip.CurrentPackage
 	}
 	lc := slip.DefLambda(low, s, args[1:])
+	if xlam := pkg.GetLambda(low); xlam != nil {
+		// Keep one lambda per name so that callers compiled before and
+		// after an earlier definition all see this definition.
+		if 0 < len(s.Parents()) {
+			lc.Closure = s
+		}
+		*xlam = *lc
+		lc = xlam
+	}
 	fc := func(fargs slip.List) slip.Object {
 		return &slip.Dynamic{
 			Function: slip.Function{
